@@ -18,7 +18,7 @@ REPLAYS = os.path.join(VERIF, "replays")
 EVIDENCE = os.path.join(VERIF, "evidence")
 KNOWN = os.path.join(VERIF, "known_findings.json")
 DEFAULT_SEED = 20261003
-WATCHDOG_S = 30.0
+WATCHDOG_S = 120.0
 NPROC = int(os.environ.get("VERIF_JOBS", "16"))
 
 
@@ -54,8 +54,9 @@ def sim_args(plan):
     return plan.get("argv", ["-c", "/sim/config.yaml", "-l", "warn"])
 
 
-def run_plan(plan, tag="x", keep_output=False, watchdog=WATCHDOG_S):
+def run_plan(plan, tag="x", keep_output=False, watchdog=None):
     """Run one plan in a fresh process. Returns dict with exit, result (parsed SIM_OUT or None), stderr, stdout."""
+    watchdog = watchdog or plan.get("watchdog_s") or WATCHDOG_S
     d = workdir()
     pf = os.path.join(d, "plan-%s.json" % tag)
     of = os.path.join(d, "out-%s.json" % tag)
